@@ -1042,6 +1042,28 @@ func (g *Gen) Scenario() []AOp {
 		for _, cn := range g.indexCols(t) {
 			row[cn] = g.St[t][a][cn]
 		}
+		// with several indexes: the first index takes the value of the deleted row (free again), another one
+		// the value of a row that stays (a duplicate the commit must refuse)
+		if tb := g.S.Tables[t]; len(tb.Indexes) >= 2 && len(us) >= 2 && g.chance(0.5) {
+			b := us[g.pick(len(us))]
+			if b != a {
+				fresh := g.MarkerRow(t, fmt.Sprintf("x%d", g.next), g.next)
+				for i, ix := range tb.Indexes {
+					for _, cn := range ix {
+						switch {
+						case i == 0:
+							row[cn] = g.St[t][a][cn]
+						case i == 1:
+							row[cn] = g.St[t][b][cn]
+						default:
+							if v, ok := fresh[cn]; ok {
+								row[cn] = v
+							}
+						}
+					}
+				}
+			}
+		}
 		del := AOp{Op: "delete", Table: t, Where: byUUID(a)}
 		ins := AOp{Op: "insert", Table: t, UUID: g.fresh(), Row: row}
 		ops := []AOp{del, ins}
